@@ -17,7 +17,16 @@
 //	                                         then runs back-to-back with the cancellation
 //	t<k> <sleep_us> await <h> <park_us>      the same without cancelling (lets a waiter park before waking it)
 //	t<k> <sleep_us> mark <h> 0               releases every `await <h>` (h names no call: a plain barrier)
+//	t<k> <sleep_us> step <delta_us> 0        (elem=clk only) steps the scenario's WALL clock by delta_us (negative: back)
+//	t<k> <sleep_us> stall <id> <us>          (elem=clk only) arms a one-shot stall: the next Delay() evaluation of element
+//	                                         <id> takes <us> (a goroutine descheduled / GC pause inside Delay(); the queue
+//	                                         evaluates Delay() under its mutex, so everybody else queues up behind it)
 //	end
+//
+// elem=clk: the queue is instantiated with *celem, an element whose deadline is a WALL-clock instant: Delay() =
+// deadline - (monotonic now + skew), where skew is the scenario clock's offset moved by `step` lines (an NTP
+// adjustment; a deadline loaded from storage has no monotonic reading).  Its Delay() is therefore NOT in lock-step
+// with the runtime timer armed from an earlier reading, and a tick of that timer proves nothing about Delay().
 //
 // A ctx field `c<h>:<us>` is a context with timeout <us> that is also cancellable through handle h.
 //
@@ -114,6 +123,61 @@ func (q valQ) Dequeue(ctx context.Context) (int, time.Time, int64, bool, error) 
 		return 0, time.Time{}, 0, false, err
 	}
 	return e.id, procEpoch.Add(time.Duration(e.dl)), int64(e.Delay()), false, nil
+}
+
+// celem is the third instantiation: an element on the scenario's steppable wall clock whose Delay() can
+// be made slow once (`stall`).  skew and the stall cells are shared with the scenario (scen).
+type celem struct {
+	id       int
+	deadline time.Time // at skew 0
+	sc       *scen
+	stall    *atomic.Int64 // ns; consumed (swapped to 0) by the next Delay() evaluation
+}
+
+type scen struct {
+	skew   atomic.Int64 // ns added to the monotonic clock to obtain the scenario's wall clock
+	mu     sync.Mutex
+	stalls map[int]*atomic.Int64
+}
+
+func (s *scen) stallCell(id int) *atomic.Int64 {
+	s.mu.Lock()
+	defer s.mu.Unlock()
+	c := s.stalls[id]
+	if c == nil {
+		c = new(atomic.Int64)
+		s.stalls[id] = c
+	}
+	return c
+}
+
+// remaining: Delay() without the stall (the harness's own observation after the return)
+func (e *celem) remaining() time.Duration {
+	return time.Until(e.deadline) - time.Duration(e.sc.skew.Load())
+}
+
+func (e *celem) Delay() time.Duration {
+	if ns := e.stall.Swap(0); ns > 0 {
+		time.Sleep(time.Duration(ns))
+	}
+	return e.remaining()
+}
+
+type clkQ struct {
+	*queue.DelayQueue[*celem]
+	sc *scen
+}
+
+func (q clkQ) Enqueue(ctx context.Context, id int, deadline time.Time) error {
+	return q.DelayQueue.Enqueue(ctx, &celem{id: id, deadline: deadline, sc: q.sc, stall: q.sc.stallCell(id)})
+}
+
+func (q clkQ) Dequeue(ctx context.Context) (int, time.Time, int64, bool, error) {
+	e, err := q.DelayQueue.Dequeue(ctx)
+	if err != nil || e == nil {
+		return 0, time.Time{}, 0, e == nil, err
+	}
+	return e.id, e.deadline, int64(e.remaining()), false, nil
 }
 
 // ---------------------------------------------------------------------------------------------
@@ -277,10 +341,191 @@ func (g *gen) directed(i int) {
 			fmt.Sprintf("t2 %d deq %d", j(500, 2500), longCtx),
 			fmt.Sprintf("t3 %d enq %d %d 100000", j(4000, 7000), b, slot(-2)),
 			"end")
+	case 18, 19, 20:
+		g.clockStep(i)
+	case 21, 22:
+		g.slowDelay(i)
+	case 23, 24, 25, 26:
+		g.parkedThenFull(i)
 	}
 }
 
-const nDirected = 18
+const nDirected = 27
+
+// clockStep: elements on the steppable WALL clock (elem=clk).  The clock is stepped while consumers are parked on
+// the timer they armed from an earlier Delay() reading, so that the timer's tick and the element's Delay() disagree:
+// after a step BACK the tick comes while Delay() is still positive (the element must stay in the queue until the
+// wall clock reaches its deadline), after a step FORWARD the element is expired before the tick (late, never early).
+// At most two elements are ever in the queue and the thread that steps the clock is the one that enqueues, so no
+// comparison of the heap straddles a step (the heap order stays the deadline order).
+//
+//	18: one element, one or two consumers, one or two steps back while they are parked
+//	19: head + far element, step forward then further back (net back); the far element never comes out
+//	20: bounded (cap 1|2): a producer blocked on the full queue behind a parked consumer, step back; the slot is
+//	    freed only when the wall clock reaches the head's deadline, and then the producer must proceed
+func (g *gen) clockStep(i int) {
+	r := g.r
+	j := func(lo, hi int) int { return r.Range(lo, hi) }
+	head := g.id()
+	hs := j(2, 4) // the head's deadline: 20..40 ms
+	back := func() int { return -slot(j(2, 5)) - j(0, 3000) }
+	var ls []string
+	switch i % nDirected {
+	case 18:
+		ls = append(ls, "new cap=0 elem=clk", fmt.Sprintf("t1 0 enq %d %d 100000", head, slot(hs)))
+		for k := 0; k < j(1, 2); k++ {
+			ls = append(ls, fmt.Sprintf("t%d %d deq 250000", 2+k, j(300, 2500)))
+		}
+		ls = append(ls, fmt.Sprintf("t1 %d step %d 0", j(5000, 12000), back()))
+		if r.Chance(40) { // a second step back, at about the instant the first timer fires
+			ls = append(ls, fmt.Sprintf("t1 %d step %d 0", slot(hs)-12000+j(-2000, 2000), -slot(j(1, 2))))
+		}
+	case 19:
+		fwd := slot(1) + j(0, 3000)
+		ls = append(ls, "new cap=0 elem=clk",
+			fmt.Sprintf("t1 0 enq %d %d 100000", head, slot(hs)),
+			fmt.Sprintf("t1 0 enq %d %d 100000", g.id(), far(0)),
+			fmt.Sprintf("t2 %d deq 250000", j(300, 2500)),
+			fmt.Sprintf("t3 %d deq %d", j(300, 2500), j(150000, 200000)), // outlives the head, never gets the far one
+			fmt.Sprintf("t1 %d step %d 0", j(4000, 7000), fwd),
+			fmt.Sprintf("t1 %d step %d 0", j(2000, 5000), back()-fwd))
+	default:
+		capc := j(1, 2)
+		ls = append(ls, fmt.Sprintf("new cap=%d elem=clk", capc), fmt.Sprintf("t1 0 enq %d %d 100000", head, slot(hs)))
+		ls = append(ls, fmt.Sprintf("t2 %d deq 250000", j(300, 2000)))
+		if capc == 2 {
+			ls = append(ls, fmt.Sprintf("t1 %d enq %d %d 100000", j(2500, 4000), g.id(), far(0)))
+		}
+		ls = append(ls,
+			fmt.Sprintf("t3 %d enq %d %d %d", j(5000, 7000), g.id(), far(1), longCtx), // blocks: the queue is full
+			fmt.Sprintf("t1 %d step %d 0", j(4000, 8000), back()))
+	}
+	g.emit(append(ls, "end")...)
+}
+
+// slowDelay: one evaluation of an element's Delay() takes milliseconds (elem=clk, `stall`; the clock is not stepped).
+// The queue evaluates Delay() under its mutex, so while that evaluation lasts every other caller queues up on the
+// mutex: consumers woken by a broadcast sit there while the timers they armed fire unreceived, producers pile up.
+// What comes out afterwards must still be expired, the earliest, delivered once.
+//
+//	21: two or three consumers parked on the same head; a later-expiring element is enqueued (wakes them all) right
+//	    after the head's Delay() was made slow; the head expires during the stall; the next elements are far
+//	22: the slow evaluation hits whoever touches the element first (a producer's comparison or a consumer's peek) in a
+//	    bounded queue with a blocked producer
+func (g *gen) slowDelay(i int) {
+	r := g.r
+	j := func(lo, hi int) int { return r.Range(lo, hi) }
+	var ls []string
+	if i%nDirected == 21 {
+		head := g.id()
+		hs := j(2, 3)
+		ls = append(ls, "new cap=0 elem=clk", fmt.Sprintf("t1 0 enq %d %d 100000", head, slot(hs)))
+		for k := 0; k < j(1, 2); k++ {
+			ls = append(ls, fmt.Sprintf("t1 0 enq %d %d 100000", g.id(), far(k)))
+		}
+		n := j(2, 3)
+		for k := 0; k < n; k++ {
+			ls = append(ls, fmt.Sprintf("t%d %d deq %d", 2+k, j(300, 2000), j(120000, 150000)))
+		}
+		// armed when everybody is parked; lasts beyond the head's deadline
+		ls = append(ls, fmt.Sprintf("t1 %d stall %d %d", j(5000, 8000), head, slot(hs)+j(2000, 12000)),
+			fmt.Sprintf("t1 0 enq %d %d 100000", g.id(), far(3)))
+	} else {
+		capc := j(1, 2)
+		a, b := g.id(), g.id()
+		ls = append(ls, fmt.Sprintf("new cap=%d elem=clk", capc), fmt.Sprintf("t1 0 enq %d %d 100000", a, slot(j(1, 2))))
+		if capc == 2 {
+			ls = append(ls, fmt.Sprintf("t1 0 enq %d %d 100000", g.id(), slot(4)))
+		}
+		ls = append(ls,
+			fmt.Sprintf("t1 %d stall %d %d", j(0, 1500), a, j(4000, 15000)),
+			fmt.Sprintf("t2 %d enq %d %d %d", j(1000, 3000), b, slot(-2), longCtx),
+			fmt.Sprintf("t3 %d deq 150000", j(1000, 3000)),
+			fmt.Sprintf("t4 %d deq 150000", j(1000, 3000)))
+	}
+	g.emit(append(ls, "end")...)
+}
+
+// parkedThenFull: the state a waiter saw when it parked is not the state at the moment it acts.  Consumers park (on
+// the head's timer, or on the empty queue) while the bounded queue still has room; then elements that do NOT become
+// the head fill it; then producers block on the full queue; then the head expires and a parked consumer takes it on
+// the timer path.  Every removal frees a slot, whatever the queue looked like when the consumer last peeked: a
+// blocked producer must get in (long contexts: a lost wake-up shows as a call that stays blocked).
+//
+//	23: consumers parked on the head's timer; fill with later/far elements; a producer blocks
+//	24: the same, two blocked producers bring already expired elements, so consumers and producers take turns
+//	25: consumers parked on the EMPTY queue; a soon head and the fill arrive; a producer blocks; timer path again
+//	26: the producer's side of the same: when it blocked, its element was later than the head; by the time it gets in the
+//	    queue is empty or its element is the earliest — the consumer that went back to waiting (on the empty queue / on a
+//	    far element's timer) after losing the head must be woken by that Enqueue
+func (g *gen) parkedThenFull(i int) {
+	r := g.r
+	j := func(lo, hi int) int { return r.Range(lo, hi) }
+	kind := i % nDirected
+	if kind == 26 {
+		capc, hs := j(1, 2), j(2, 3)
+		ls := []string{fmt.Sprintf("new cap=%d", capc), fmt.Sprintf("t1 0 enq %d %d 100000", g.id(), slot(hs))}
+		ncons := j(2, 3)
+		for k := 0; k < ncons; k++ { // every consumer gets an element: long contexts
+			ls = append(ls, fmt.Sprintf("t%d %d deq %d", 2+k, j(300, 2000), longCtx))
+		}
+		if capc == 2 {
+			ls = append(ls, fmt.Sprintf("t1 %d enq %d %d 100000", j(2500, 4000), g.id(), far(1)))
+		}
+		// one blocked producer per remaining consumer; they get in one by one, in any order, as the heads are taken
+		for k := 0; k+1 < ncons; k++ {
+			ls = append(ls, fmt.Sprintf("t%d %d enq %d %d %d", 6+k, j(8000, 11000), g.id(), slot(hs+2+k), longCtx))
+		}
+		g.emit(append(ls, "end")...)
+		return
+	}
+	capc := j(2, 3)
+	head := g.id()
+	hs := j(2, 4)
+	ls := []string{fmt.Sprintf("new cap=%d", capc)}
+	// as many blocked producers as removals are certain to happen (a producer that legitimately stays blocked on the
+	// full queue would only sit out its long context); the consumers' contexts end well after the head expired
+	ncons, nprod := j(1, 2), 1
+	if kind == 24 {
+		nprod = 2
+	}
+	const consCtx = 150000
+	if kind == 25 {
+		for k := 0; k < ncons; k++ {
+			ls = append(ls, fmt.Sprintf("t%d %d deq %d", 2+k, j(0, 1500), consCtx))
+		}
+		ls = append(ls, fmt.Sprintf("t1 %d enq %d %d 100000", j(2500, 3500), head, slot(hs)))
+	} else {
+		ls = append(ls, fmt.Sprintf("t1 0 enq %d %d 100000", head, slot(hs)))
+		for k := 0; k < ncons; k++ {
+			ls = append(ls, fmt.Sprintf("t%d %d deq %d", 2+k, j(300, 2000), consCtx))
+		}
+	}
+	// the fill: later than the head, so the parked consumers' timers stay valid
+	for k := 1; k < capc; k++ {
+		off := far(k)
+		if r.Chance(30) {
+			off = slot(hs + 2 + k)
+		}
+		sl := 0
+		if k == 1 {
+			sl = j(2500, 4000)
+		}
+		ls = append(ls, fmt.Sprintf("t1 %d enq %d %d 100000", sl, g.id(), off))
+	}
+	for k := 0; k < nprod; k++ {
+		off := far(5 + k)
+		if kind == 24 {
+			off = slot(-3 + k)
+		}
+		ls = append(ls, fmt.Sprintf("t%d %d enq %d %d %d", 5+k, j(8000, 11000), g.id(), off, longCtx))
+	}
+	if kind == 24 && ncons == 1 {
+		// the expired elements the producers bring are taken by a later consumer
+		ls = append(ls, fmt.Sprintf("t8 %d deq %d", slot(hs)+j(3000, 6000), consCtx))
+	}
+	g.emit(append(ls, "end")...)
+}
 
 // simultaneous: the waiter (long context) and the operation that enables it start at about the SAME instant, so
 // that the enabling broadcast can fall anywhere inside the waiter's call — between its peek and the fetch of the
@@ -454,9 +699,9 @@ func (g *gen) random(focus string) {
 
 func generate(tier, focus string, out *vlib.Out) {
 	g := &gen{r: vlib.NewRng(vlib.Seed()), out: out}
-	nd, nr := 144, 420
+	nd, nr := 216, 420
 	if focus == "wake" {
-		nd, nr = 240, 240
+		nd, nr = 270, 240
 	}
 	if tier == "thorough" {
 		nd, nr = nd*6, nr*8
@@ -507,13 +752,14 @@ type call struct {
 	ln         int
 }
 
-func parseCase(lines []string) (capc int, val bool, calls []*call, err error) {
+func parseCase(lines []string) (capc int, val bool, clk bool, calls []*call, err error) {
 	if len(lines) == 0 || !strings.HasPrefix(lines[0], "new cap=") {
-		return 0, false, nil, fmt.Errorf("case must start with new cap=")
+		return 0, false, false, nil, fmt.Errorf("case must start with new cap=")
 	}
 	hd := strings.Fields(lines[0])
 	capc, _ = strconv.Atoi(strings.TrimPrefix(hd[1], "cap="))
 	val = len(hd) > 2 && hd[2] == "elem=val"
+	clk = len(hd) > 2 && hd[2] == "elem=clk"
 	for _, l := range lines[1:] {
 		w := strings.Fields(l)
 		if len(w) == 0 || w[0] == "end" {
@@ -521,7 +767,7 @@ func parseCase(lines []string) (capc int, val bool, calls []*call, err error) {
 		}
 		c := &call{line: l}
 		if len(w) < 4 || !strings.HasPrefix(w[0], "t") {
-			return 0, false, nil, fmt.Errorf("bad op line %q", l)
+			return 0, false, false, nil, fmt.Errorf("bad op line %q", l)
 		}
 		c.thr, _ = strconv.Atoi(w[0][1:])
 		c.sleepUs, _ = strconv.Atoi(w[1])
@@ -545,12 +791,15 @@ func parseCase(lines []string) (capc int, val bool, calls []*call, err error) {
 		case (c.kind == "cancel" || c.kind == "await" || c.kind == "mark") && len(w) == 5:
 			c.handle, _ = strconv.Atoi(w[3])
 			c.parkUs, _ = strconv.Atoi(w[4])
+		case (c.kind == "step" || c.kind == "stall") && len(w) == 5 && clk:
+			c.id, _ = strconv.Atoi(w[3])    // step: the signed delta in µs; stall: the element
+			c.offUs, _ = strconv.Atoi(w[4]) // stall: the duration in µs
 		default:
-			return 0, false, nil, fmt.Errorf("bad op line %q", l)
+			return 0, false, false, nil, fmt.Errorf("bad op line %q", l)
 		}
 		calls = append(calls, c)
 	}
-	return capc, val, calls, nil
+	return capc, val, clk, calls, nil
 }
 
 func mkCtx(us int) (context.Context, context.CancelFunc) {
@@ -635,14 +884,17 @@ func timerDisc() string {
 }
 
 func runCase(lines []string) []string {
-	capc, val, calls, err := parseCase(lines)
+	capc, val, clk, calls, err := parseCase(lines)
 	if err != nil {
 		return []string{fmt.Sprintf("%s => bad-case %s", lines[0], strings.ReplaceAll(err.Error(), " ", "_"))}
 	}
 	var q dq
+	sc := &scen{stalls: map[int]*atomic.Int64{}}
 	if p := vlib.Catch(func() {
 		if val {
 			q = valQ{queue.NewDelayQueue[velem](capc)}
+		} else if clk {
+			q = clkQ{queue.NewDelayQueue[*celem](capc), sc}
 		} else {
 			q = ptrQ{queue.NewDelayQueue[*elem](capc)}
 		}
@@ -694,6 +946,26 @@ func runCase(lines []string) []string {
 					}
 					mu.Lock()
 					c.res, c.done = "ok", true
+					mu.Unlock()
+					continue
+				}
+				if c.kind == "stall" {
+					sc.stallCell(c.id).Store(int64(c.offUs) * 1000)
+					mu.Lock()
+					c.res, c.done = "ok", true
+					mu.Unlock()
+					continue
+				}
+				if c.kind == "step" {
+					// stamps bracket the instant at which the skew changes; `skew` is the value in force afterwards
+					sinv := seq.Add(1)
+					tinv := time.Now()
+					now := sc.skew.Add(int64(c.id) * 1000)
+					tres := time.Now()
+					sres := seq.Add(1)
+					mu.Lock()
+					c.res, c.sinv, c.sres, c.tinv, c.tres, c.rem = "ok", sinv, sres, us(tinv), us(tres), now/1000
+					c.done = true
 					mu.Unlock()
 					continue
 				}
@@ -802,8 +1074,12 @@ func runCase(lines []string) []string {
 	}
 	mu.Lock()
 	for _, c := range calls {
-		if c.kind == "cancel" || c.kind == "await" || c.kind == "mark" {
+		if c.kind == "cancel" || c.kind == "await" || c.kind == "mark" || c.kind == "stall" {
 			out = append(out, fmt.Sprintf("%s => ok", c.line)) // not a call on the queue
+			continue
+		}
+		if c.kind == "step" && c.done {
+			out = append(out, fmt.Sprintf("%s => ok sinv=%d sres=%d tinv=%d tres=%d skew=%d", c.line, c.sinv, c.sres, c.tinv, c.tres, c.rem))
 			continue
 		}
 		if !c.done {
